@@ -20,6 +20,8 @@ pub struct T {
     pub p_probe: u32,
     pub quiesce: bool,
     pub dups: bool,
+    pub bounce_every: bool,
+    pub redundancy_every: bool,
 }
 
 impl Default for T {
@@ -39,6 +41,8 @@ impl Default for T {
             p_probe: 0,
             quiesce: true,
             dups: false,
+            bounce_every: false,
+            redundancy_every: false,
         }
     }
 }
@@ -87,7 +91,10 @@ pub fn tmpl(mut t: T) -> Template {
                 p_fault,
                 p_probe: t.p_probe,
                 quiesce: t.quiesce,
-                dup_values: t.dups && rng.chance(2, 3),
+                // equal values: concurrent equal register writes, re-writing the held LWW value, equal GList elements
+                bounce_every: t.bounce_every && rng.chance(1, 5),
+                redundancy_every: t.redundancy_every && rng.chance(1, 6),
+                dup_values: (t.dups || t.family.contains("mvreg") || t.family == "lww") && rng.chance(1, 2),
             }
         }),
     }
@@ -264,6 +271,7 @@ pub fn templates(prop: &str) -> Vec<Template> {
                     discs: discs_of(f),
                     repls: if mergeable(f) { vec![Repl::Ops, Repl::Hybrid, Repl::State] } else { vec![Repl::Ops] },
                     clauses: vec!["redundant.op", "redundant.state", "redundant.eq"],
+                    redundancy_every: true,
                     faults: with(&NET, &["crash", "stale_state"]),
                     p_probe: 120,
                     edits: (2, 10),
@@ -429,6 +437,7 @@ pub fn templates(prop: &str) -> Vec<Template> {
                     clauses: vec!["serde.probe", "restart.ghost"],
                     faults: vec!["bounce", "bounce", "crash", "crash", "dup", "drop", "stale_state"],
                     json: true,
+                    bounce_every: true,
                     p_probe: 80,
                     ..T::default()
                 }));
